@@ -3,7 +3,7 @@
    backend (general_invoke_callback, convert_from_object_fficallback, prepare_callback_info_tuple). *)
 From Coq Require Import ZArith NArith List Bool.
 Import ListNotations.
-From Cffi Require Import C14.Spec C14.Gen C14.Model C14.Proofs.
+From Cffi Require Import C14.Spec C14.Gic C14.Gen C14.Model C14.Proofs C14.Proofs2.
 Open Scope Z_scope.
 
 (* the generated wrapper and the backend agree on the slot protocol: same offsets, same by-reference rule,
@@ -128,6 +128,41 @@ Theorem C14_error_value_received : forall encode k error eb b oe buf0,
 Proof. exact error_value_received. Qed.
 Print Assumptions C14_error_value_received.
 
+(* ---- the same, about REGENERATED code.  C14/Gen.v:gic_prog is the statement tree of general_invoke_callback
+   (src/c/_cffi_backend.c), translated statement by statement on every run by tools/props/c14_regen.py (every statement
+   and condition of the function must be in the translator's table, else the translation fails closed);
+   C14/Model.v:exec_gic gives each statement its meaning over the state (result area, PyErr_Occurred(), reports).
+   `b` ranges over: the Python function returns any object / raises / a C argument cannot be converted
+   (convert_to_object fails: `goto error` before the call); the argument loop is run for one representative iteration;
+   a failing PyTuple_New is outside the model.
+
+   At the `return;` of the regenerated function — which is reached: a tree that falls off its end, jumps to a missing
+   label or loops yields a state with pending = true — no Python exception is pending. *)
+Theorem C14_gen_no_escape : forall encode k eb b oe buf0,
+  pending (exec_gic gic_prog encode k eb b oe buf0) = false.
+Proof. exact gen_no_escape. Qed.
+Print Assumptions C14_gen_no_escape.
+
+(* the regenerated function computes exactly what the hand state machine `invoke` computes (result area, pending flag,
+   number of reports), for every input, when the result type is void or has a positive size (wf_rkind) and the error
+   value is at least one ffi_arg long (which prepare_callback_info_tuple guarantees: C14_error_value_received).
+   Hence C14_protocol_table, C14_no_exception_escapes and C14_error_value_received are statements about the regenerated
+   code.  (Without the hypotheses `invoke` forgets the memset a failed conversion of the BODY's result has already
+   done; the error-value memcpy covers it.) *)
+Theorem C14_gen_agrees_with_invoke : forall encode k eb b oe buf0,
+  wf_rkind k -> (8 <= length eb)%nat ->
+  exec_gic gic_prog encode k eb b oe buf0 = invoke encode k eb b oe buf0.
+Proof. exact gen_agrees_with_invoke. Qed.
+Print Assumptions C14_gen_agrees_with_invoke.
+
+Theorem C14_gen_error_value_received : forall encode k error eb b oe buf0,
+  rawerr encode k error = Some eb -> (0 < rsize k)%nat ->
+  body_value encode k b = None ->
+  (oe = ONone \/ oe = OReturnsNone \/ oe = ORaises \/ exists x, oe = OReturns x /\ fficallback encode k x = None) ->
+  c_receives k (exec_gic gic_prog encode k eb b oe buf0) = firstn (rsize k) eb.
+Proof. exact gen_error_value_received. Qed.
+Print Assumptions C14_gen_error_value_received.
+
 (* the hand model is one function (invoke / fficallback / rawerr) for both conventions; that both paths of the property
    really run through the modelled code is a checked, regenerated fact: ffi.callback() -> libffi closure ->
    invoke_callback -> general_invoke_callback(1, ...) with the error value encoded with encode = 1; extern "Python" ->
@@ -191,3 +226,15 @@ Example C14_protocol_example :
   (let s := invoke true (RZeroExt 4) eb BRaises (OReturns RetBad) (repeat 9 8) in c_receives (RZeroExt 4) s) = [42; 0; 0; 0] /\
   run BRaises ORaises = ([42; 0; 0; 0], 2%nat, false).
 Proof. vm_compute. repeat split; reflexivity. Qed.
+
+(* the regenerated tree run on concrete inputs; an argument that cannot be converted takes the error path *)
+Example C14_gen_example :
+  let eb := [42; 0; 0; 0; 0; 0; 0; 0] in
+  let run b oe := let s := exec_gic gic_prog true (RSigned 4) eb b oe (repeat 9 8) in (c_receives (RSigned 4) s, printed s, pending s) in
+  run (BReturns (RetInt 7)) ONone = ([7; 0; 0; 0], 0%nat, false) /\
+  run BArgFail ONone = ([42; 0; 0; 0], 1%nat, false) /\
+  run BArgFail (OReturns (RetInt 5)) = ([5; 0; 0; 0], 0%nat, false) /\
+  run BRaises (OReturns RetBad) = ([42; 0; 0; 0], 2%nat, false) /\
+  run BRaises ORaises = ([42; 0; 0; 0], 2%nat, false) /\
+  wf_rkind (RSigned 4) /\ wf_rkind RVoid /\ gic_slot_stride = 8.
+Proof. vm_compute. repeat split; try reflexivity; intro; discriminate. Qed.
